@@ -67,29 +67,574 @@ def mn(p):
     return zmin(p['m'], p['n'])
 
 
-# --------------------------------------------------------------- examples
-# (the remaining routines follow the same pattern)
+# ------------------------------------------------------------------ helpers
+def flag(name, chars):
+    return req("%s in '%s'" % (name, chars),
+               lambda p: is_(p, name, *chars))
+
+
+def _val(p, d):
+    if callable(d):
+        return d(p)
+    if isinstance(d, int):
+        return z3.IntVal(d)
+    return p[d]
+
+
+def ldreq(ld, *dims, **kw):
+    """ld >= max(1, dims...)"""
+    text = kw.get('text') or '%s >= max(1,%s)' % (ld, ','.join(
+        d if isinstance(d, str) else '...' for d in dims))
+
+    def f(p):
+        m = z3.IntVal(1)
+        for d in dims:
+            m = zmax(m, _val(p, d))
+        return p[ld] >= m
+    return req(text, f)
+
+
+def cnt(n, off=0, mul=1):
+    """mul*n + off elements (0 if that is negative)"""
+    return lambda p: zmax(0, mul * _val(p, n) + off)
+
+
+def one(p):
+    return z3.IntVal(1)
+
+
+def isch(p, name, c):
+    return p[name] == ord(c)
+
+
+def mx(p):
+    return zmax(p['m'], p['n'])
+
+
+# work arrays whose size is an argument: dimension (MAX(1,LWORK))
+WORK = ('w', lambda p: zmax(1, p['lwork']))
+RWORKL = ('w', lambda p: zmax(1, p['lrwork']), 'R')
+IWORKL = ('w', lambda p: zmax(1, p['liwork']), 'I')
+
+# ------------------------------------------------- auxiliary routines
+# xLARFG: X dimension (1+(N-2)*abs(INCX)), INCX > 0; ALPHA, TAU scalars.
+# (no XERBLA in the xLA* auxiliaries: requires = documented constraints)
+LR('larfg', 'dz', 'n alpha x incx tau',
+   {'alpha': ('rw', one),
+    'x': ('rw', lambda p: z3.If(p['n'] > 1,
+                                1 + (p['n'] - 2) * zabs(p['incx']), 0)),
+    'tau': ('w', one)},
+   [req('incx > 0', lambda p: p['incx'] > 0)])
+
+# xLARFX: V (M) if SIDE='L' / (N) if 'R'; C (LDC,N); WORK (N) if 'L' / (M)
+LR('larfx', 'dz', 'side m n V tau C ldc work',
+   {'V': ('r', lambda p: zmax(0, z3.If(isch(p, 'side', 'L'), p['m'],
+                                       p['n']))),
+    'tau': ('r', one),
+    'C': ('rw', ge('m', 'n', 'ldc')),
+    'work': ('w', lambda p: zmax(0, z3.If(isch(p, 'side', 'L'), p['n'],
+                                          p['m'])))},
+   [flag('side', 'LR'), ldreq('ldc', 'm')])
+
+LR('lacpy', 'dz', 'uplo m n A lda B ldb',
+   {'A': ('r', ge('m', 'n', 'lda')), 'B': ('w', ge('m', 'n', 'ldb'))},
+   [nonneg('m'), nonneg('n'), ldreq('lda', 'm'), ldreq('ldb', 'm')])
+
+# ------------------------------------------------- general (LU)
 LR('getrf', 'dz', 'm n A lda ipiv info',
    {'A': ('rw', ge('m', 'n', 'lda')),
     'ipiv': ('w', lambda p: zmax(0, mn(p)), 'I')},
-   [nonneg('m'), nonneg('n'),
-    req('lda >= max(1,m)', lambda p: p['lda'] >= zmax(1, p['m']))])
+   [nonneg('m'), nonneg('n'), ldreq('lda', 'm')])
 
+LR('getrs', 'dz', 'trans n nrhs A lda ipiv B ldb info',
+   {'A': ('r', ge('n', 'n', 'lda')), 'ipiv': ('r', cnt('n'), 'I'),
+    'B': ('rw', ge('n', 'nrhs', 'ldb'))},
+   [flag('trans', 'NTC'), nonneg('n'), nonneg('nrhs'), ldreq('lda', 'n'),
+    ldreq('ldb', 'n')])
+
+LR('getri', 'dz', 'n A lda ipiv work lwork info',
+   {'A': ('rw', ge('n', 'n', 'lda')), 'ipiv': ('r', cnt('n'), 'I'),
+    'work': WORK},
+   [nonneg('n'), ldreq('lda', 'n')],
+   minwork={'lwork': lambda p: zmax(1, p['n'])})
+
+LR('gesv', 'dz', 'n nrhs A lda ipiv B ldb info',
+   {'A': ('rw', ge('n', 'n', 'lda')), 'ipiv': ('w', cnt('n'), 'I'),
+    'B': ('rw', ge('n', 'nrhs', 'ldb'))},
+   [nonneg('n'), nonneg('nrhs'), ldreq('lda', 'n'), ldreq('ldb', 'n')])
+
+# ------------------------------------------------- general band
+_gbrows = lambda p: 2 * p['kl'] + p['ku'] + 1
+_ldab_gb = req('ldab >= 2*kl+ku+1', lambda p: p['ldab'] >= _gbrows(p))
+LR('gbtrf', 'dz', 'm n kl ku AB ldab ipiv info',
+   {'AB': ('rw', ge(_gbrows, 'n', 'ldab')),
+    'ipiv': ('w', lambda p: zmax(0, mn(p)), 'I')},
+   [nonneg('m'), nonneg('n'), nonneg('kl'), nonneg('ku'), _ldab_gb])
+
+LR('gbtrs', 'dz', 'trans n kl ku nrhs AB ldab ipiv B ldb info',
+   {'AB': ('r', ge(_gbrows, 'n', 'ldab')), 'ipiv': ('r', cnt('n'), 'I'),
+    'B': ('rw', ge('n', 'nrhs', 'ldb'))},
+   [flag('trans', 'NTC'), nonneg('n'), nonneg('kl'), nonneg('ku'),
+    nonneg('nrhs'), _ldab_gb, ldreq('ldb', 'n')])
+
+LR('gbsv', 'dz', 'n kl ku nrhs AB ldab ipiv B ldb info',
+   {'AB': ('rw', ge(_gbrows, 'n', 'ldab')), 'ipiv': ('w', cnt('n'), 'I'),
+    'B': ('rw', ge('n', 'nrhs', 'ldb'))},
+   [nonneg('n'), nonneg('kl'), nonneg('ku'), nonneg('nrhs'), _ldab_gb,
+    ldreq('ldb', 'n')])
+
+# ------------------------------------------------- general tridiagonal
+LR('gttrf', 'dz', 'n dl d du du2 ipiv info',
+   {'dl': ('rw', cnt('n', -1)), 'd': ('rw', cnt('n')),
+    'du': ('rw', cnt('n', -1)), 'du2': ('w', cnt('n', -2)),
+    'ipiv': ('w', cnt('n'), 'I')},
+   [nonneg('n')])
+
+LR('gttrs', 'dz', 'trans n nrhs dl d du du2 ipiv B ldb info',
+   {'dl': ('r', cnt('n', -1)), 'd': ('r', cnt('n')),
+    'du': ('r', cnt('n', -1)), 'du2': ('r', cnt('n', -2)),
+    'ipiv': ('r', cnt('n'), 'I'), 'B': ('rw', ge('n', 'nrhs', 'ldb'))},
+   [flag('trans', 'NTC'), nonneg('n'), nonneg('nrhs'), ldreq('ldb', 'n')])
+
+LR('gtsv', 'dz', 'n nrhs dl d du B ldb info',
+   {'dl': ('rw', cnt('n', -1)), 'd': ('rw', cnt('n')),
+    'du': ('rw', cnt('n', -1)), 'B': ('rw', ge('n', 'nrhs', 'ldb'))},
+   [nonneg('n'), nonneg('nrhs'), ldreq('ldb', 'n')])
+
+# ------------------------------------------------- positive definite
+_uplo = flag('uplo', 'UL')
 LR('potrf', 'dz', 'uplo n A lda info',
    {'A': ('rw', ge('n', 'n', 'lda'))},
-   [req("uplo in 'UL'", lambda p: is_(p, 'uplo', 'U', 'L')), nonneg('n'),
-    req('lda >= max(1,n)', lambda p: p['lda'] >= zmax(1, p['n']))])
+   [_uplo, nonneg('n'), ldreq('lda', 'n')])
 
-LR('gels', 'dz', 'trans m n nrhs A lda B ldb work lwork info',
+LR('potrs', 'dz', 'uplo n nrhs A lda B ldb info',
+   {'A': ('r', ge('n', 'n', 'lda')), 'B': ('rw', ge('n', 'nrhs', 'ldb'))},
+   [_uplo, nonneg('n'), nonneg('nrhs'), ldreq('lda', 'n'),
+    ldreq('ldb', 'n')])
+
+LR('potri', 'dz', 'uplo n A lda info',
+   {'A': ('rw', ge('n', 'n', 'lda'))},
+   [_uplo, nonneg('n'), ldreq('lda', 'n')])
+
+LR('posv', 'dz', 'uplo n nrhs A lda B ldb info',
+   {'A': ('rw', ge('n', 'n', 'lda')), 'B': ('rw', ge('n', 'nrhs', 'ldb'))},
+   [_uplo, nonneg('n'), nonneg('nrhs'), ldreq('lda', 'n'),
+    ldreq('ldb', 'n')])
+
+# ------------------------------------------------- positive definite band
+_pbrows = lambda p: p['kd'] + 1
+_ldab_pb = req('ldab >= kd+1', lambda p: p['ldab'] >= p['kd'] + 1)
+LR('pbtrf', 'dz', 'uplo n kd AB ldab info',
+   {'AB': ('rw', ge(_pbrows, 'n', 'ldab'))},
+   [_uplo, nonneg('n'), nonneg('kd'), _ldab_pb])
+
+LR('pbtrs', 'dz', 'uplo n kd nrhs AB ldab B ldb info',
+   {'AB': ('r', ge(_pbrows, 'n', 'ldab')),
+    'B': ('rw', ge('n', 'nrhs', 'ldb'))},
+   [_uplo, nonneg('n'), nonneg('kd'), nonneg('nrhs'), _ldab_pb,
+    ldreq('ldb', 'n')])
+
+LR('pbsv', 'dz', 'uplo n kd nrhs AB ldab B ldb info',
+   {'AB': ('rw', ge(_pbrows, 'n', 'ldab')),
+    'B': ('rw', ge('n', 'nrhs', 'ldb'))},
+   [_uplo, nonneg('n'), nonneg('kd'), nonneg('nrhs'), _ldab_pb,
+    ldreq('ldb', 'n')])
+
+# ------------------------------------------- positive definite tridiagonal
+# D is a real array also in the z-routines
+LR('pttrf', 'dz', 'n d e info',
+   {'d': ('rw', cnt('n'), 'R'), 'e': ('rw', cnt('n', -1))},
+   [nonneg('n')])
+
+LR('pttrs', 'd', 'n nrhs d e B ldb info',
+   {'d': ('r', cnt('n'), 'R'), 'e': ('r', cnt('n', -1)),
+    'B': ('rw', ge('n', 'nrhs', 'ldb'))},
+   [nonneg('n'), nonneg('nrhs'), ldreq('ldb', 'n')])
+
+LR('pttrs', 'z', 'uplo n nrhs d e B ldb info',
+   {'d': ('r', cnt('n'), 'R'), 'e': ('r', cnt('n', -1)),
+    'B': ('rw', ge('n', 'nrhs', 'ldb'))},
+   [_uplo, nonneg('n'), nonneg('nrhs'), ldreq('ldb', 'n')])
+
+LR('ptsv', 'dz', 'n nrhs d e B ldb info',
+   {'d': ('rw', cnt('n'), 'R'), 'e': ('rw', cnt('n', -1)),
+    'B': ('rw', ge('n', 'nrhs', 'ldb'))},
+   [nonneg('n'), nonneg('nrhs'), ldreq('ldb', 'n')])
+
+# ------------------------------------------------- symmetric / Hermitian
+_sy = ['dsytrf', 'zsytrf', 'zhetrf']
+LR('sytrf', 'dzz', 'uplo n A lda ipiv work lwork info',
+   {'A': ('rw', ge('n', 'n', 'lda')), 'ipiv': ('w', cnt('n'), 'I'),
+    'work': WORK},
+   [_uplo, nonneg('n'), ldreq('lda', 'n')],
+   minwork={'lwork': lambda p: z3.IntVal(1)}, names=_sy)
+
+LR('sytrs', 'dzz', 'uplo n nrhs A lda ipiv B ldb info',
+   {'A': ('r', ge('n', 'n', 'lda')), 'ipiv': ('r', cnt('n'), 'I'),
+    'B': ('rw', ge('n', 'nrhs', 'ldb'))},
+   [_uplo, nonneg('n'), nonneg('nrhs'), ldreq('lda', 'n'),
+    ldreq('ldb', 'n')], names=['dsytrs', 'zsytrs', 'zhetrs'])
+
+# WORK: dimension (2*N) in DSYTRI and ZSYTRI, (N) in ZHETRI
+LR('sytri', 'dz', 'uplo n A lda ipiv work info',
+   {'A': ('rw', ge('n', 'n', 'lda')), 'ipiv': ('r', cnt('n'), 'I'),
+    'work': ('w', cnt('n', mul=2))},
+   [_uplo, nonneg('n'), ldreq('lda', 'n')])
+LR('hetri', 'z', 'uplo n A lda ipiv work info',
+   {'A': ('rw', ge('n', 'n', 'lda')), 'ipiv': ('r', cnt('n'), 'I'),
+    'work': ('w', cnt('n'))},
+   [_uplo, nonneg('n'), ldreq('lda', 'n')])
+
+LR('sysv', 'dzz', 'uplo n nrhs A lda ipiv B ldb work lwork info',
+   {'A': ('rw', ge('n', 'n', 'lda')), 'ipiv': ('w', cnt('n'), 'I'),
+    'B': ('rw', ge('n', 'nrhs', 'ldb')), 'work': WORK},
+   [_uplo, nonneg('n'), nonneg('nrhs'), ldreq('lda', 'n'),
+    ldreq('ldb', 'n')],
+   minwork={'lwork': lambda p: z3.IntVal(1)},
+   names=['dsysv', 'zsysv', 'zhesv'])
+
+# ------------------------------------------------- triangular
+LR('trtrs', 'dz', 'uplo trans diag n nrhs A lda B ldb info',
+   {'A': ('r', ge('n', 'n', 'lda')), 'B': ('rw', ge('n', 'nrhs', 'ldb'))},
+   [_uplo, flag('trans', 'NTC'), flag('diag', 'NU'), nonneg('n'),
+    nonneg('nrhs'), ldreq('lda', 'n'), ldreq('ldb', 'n')])
+
+LR('trtri', 'dz', 'uplo diag n A lda info',
+   {'A': ('rw', ge('n', 'n', 'lda'))},
+   [_uplo, flag('diag', 'NU'), nonneg('n'), ldreq('lda', 'n')])
+
+LR('tbtrs', 'dz', 'uplo trans diag n kd nrhs AB ldab B ldb info',
+   {'AB': ('r', ge(_pbrows, 'n', 'ldab')),
+    'B': ('rw', ge('n', 'nrhs', 'ldb'))},
+   [_uplo, flag('trans', 'NTC'), flag('diag', 'NU'), nonneg('n'),
+    nonneg('kd'), nonneg('nrhs'), _ldab_pb, ldreq('ldb', 'n')])
+
+# ------------------------------------------------- least squares, QR, LQ
+LR('gels', 'd', 'trans m n nrhs A lda B ldb work lwork info',
    {'A': ('rw', ge('m', 'n', 'lda')),
-    'B': ('rw', ge(lambda p: zmax(p['m'], p['n']), 'nrhs', 'ldb')),
-    'work': ('w', lambda p: zmax(1, p['lwork']))},
-   [req("trans in 'NTC'", lambda p: is_(p, 'trans', 'N', 'T', 'C')),
-    nonneg('m'), nonneg('n'), nonneg('nrhs'),
-    req('lda >= max(1,m)', lambda p: p['lda'] >= zmax(1, p['m'])),
-    req('ldb >= max(1,m,n)', lambda p: p['ldb'] >= zmax(1, zmax(
-        p['m'], p['n'])))],
+    'B': ('rw', ge(mx, 'nrhs', 'ldb')),
+    'work': WORK},
+   [flag('trans', 'NT'), nonneg('m'), nonneg('n'), nonneg('nrhs'),
+    ldreq('lda', 'm'), ldreq('ldb', 'm', 'n')],
    minwork={'lwork': lambda p: zmax(1, mn(p) + zmax(mn(p), p['nrhs']))})
+LR('gels', 'z', 'trans m n nrhs A lda B ldb work lwork info',
+   {'A': ('rw', ge('m', 'n', 'lda')),
+    'B': ('rw', ge(mx, 'nrhs', 'ldb')),
+    'work': WORK},
+   [flag('trans', 'NC'), nonneg('m'), nonneg('n'), nonneg('nrhs'),
+    ldreq('lda', 'm'), ldreq('ldb', 'm', 'n')],
+   minwork={'lwork': lambda p: zmax(1, mn(p) + zmax(mn(p), p['nrhs']))})
+
+_tau_mn = ('w', lambda p: zmax(0, mn(p)))
+LR('geqrf', 'dz', 'm n A lda tau work lwork info',
+   {'A': ('rw', ge('m', 'n', 'lda')), 'tau': _tau_mn, 'work': WORK},
+   [nonneg('m'), nonneg('n'), ldreq('lda', 'm')],
+   minwork={'lwork': lambda p: zmax(1, p['n'])})
+
+LR('gelqf', 'dz', 'm n A lda tau work lwork info',
+   {'A': ('rw', ge('m', 'n', 'lda')), 'tau': _tau_mn, 'work': WORK},
+   [nonneg('m'), nonneg('n'), ldreq('lda', 'm')],
+   minwork={'lwork': lambda p: zmax(1, p['m'])})
+
+_nq = lambda p: z3.If(isch(p, 'side', 'L'), p['m'], p['n'])
+_nw = lambda p: z3.If(isch(p, 'side', 'L'), p['n'], p['m'])
+_kq = req('0 <= k <= nq', lambda p: z3.And(p['k'] >= 0, p['k'] <= _nq(p)))
+for _nm, _tr in (('dormqr', 'NT'), ('zunmqr', 'NC')):
+    # A (LDA,K), LDA >= max(1,nq); the i-th column holds reflector i
+    LR(None, _nm[0], 'side trans m n k A lda tau C ldc work lwork info',
+       {'A': ('r', ge(_nq, 'k', 'lda')), 'tau': ('r', cnt('k')),
+        'C': ('rw', ge('m', 'n', 'ldc')), 'work': WORK},
+       [flag('side', 'LR'), flag('trans', _tr), nonneg('m'), nonneg('n'),
+        _kq, ldreq('lda', _nq, text='lda >= max(1,nq)'), ldreq('ldc', 'm')],
+       minwork={'lwork': lambda p: zmax(1, _nw(p))}, names=[_nm])
+for _nm, _tr in (('dormlq', 'NT'), ('zunmlq', 'NC')):
+    # A (LDA,M) if SIDE='L', (LDA,N) if SIDE='R'; LDA >= max(1,K)
+    LR(None, _nm[0], 'side trans m n k A lda tau C ldc work lwork info',
+       {'A': ('r', ge('k', _nq, 'lda')), 'tau': ('r', cnt('k')),
+        'C': ('rw', ge('m', 'n', 'ldc')), 'work': WORK},
+       [flag('side', 'LR'), flag('trans', _tr), nonneg('m'), nonneg('n'),
+        _kq, ldreq('lda', 'k'), ldreq('ldc', 'm')],
+       minwork={'lwork': lambda p: zmax(1, _nw(p))}, names=[_nm])
+
+LR('orgqr', 'dz', 'm n k A lda tau work lwork info',
+   {'A': ('rw', ge('m', 'n', 'lda')), 'tau': ('r', cnt('k')),
+    'work': WORK},
+   [nonneg('m'),
+    req('0 <= n <= m', lambda p: z3.And(p['n'] >= 0, p['n'] <= p['m'])),
+    req('0 <= k <= n', lambda p: z3.And(p['k'] >= 0, p['k'] <= p['n'])),
+    ldreq('lda', 'm')],
+   minwork={'lwork': lambda p: zmax(1, p['n'])},
+   names=['dorgqr', 'zungqr'])
+
+LR('orglq', 'dz', 'm n k A lda tau work lwork info',
+   {'A': ('rw', ge('m', 'n', 'lda')), 'tau': ('r', cnt('k')),
+    'work': WORK},
+   [nonneg('m'), req('n >= m', lambda p: p['n'] >= p['m']),
+    req('0 <= k <= m', lambda p: z3.And(p['k'] >= 0, p['k'] <= p['m'])),
+    ldreq('lda', 'm')],
+   minwork={'lwork': lambda p: zmax(1, p['m'])},
+   names=['dorglq', 'zunglq'])
+
+# xGEQP3: LWORK >= 3*N+1 (D), >= N+1 (Z); RWORK (2*N)
+LR('geqp3', 'd', 'm n A lda jpvt tau work lwork info',
+   {'A': ('rw', ge('m', 'n', 'lda')), 'jpvt': ('rw', cnt('n'), 'I'),
+    'tau': _tau_mn, 'work': WORK},
+   [nonneg('m'), nonneg('n'), ldreq('lda', 'm')],
+   minwork={'lwork': lambda p: 3 * p['n'] + 1})
+LR('geqp3', 'z', 'm n A lda jpvt tau work lwork rwork info',
+   {'A': ('rw', ge('m', 'n', 'lda')), 'jpvt': ('rw', cnt('n'), 'I'),
+    'tau': _tau_mn, 'work': WORK, 'rwork': ('w', cnt('n', mul=2), 'R')},
+   [nonneg('m'), nonneg('n'), ldreq('lda', 'm')],
+   minwork={'lwork': lambda p: p['n'] + 1})
+
+# ------------------------------------------------- symmetric eigenproblems
+_jobz = flag('jobz', 'NV')
+_W = ('w', cnt('n'), 'R')
+LR('syev', 'd', 'jobz uplo n A lda W work lwork info',
+   {'A': ('rw', ge('n', 'n', 'lda')), 'W': _W, 'work': WORK},
+   [_jobz, _uplo, nonneg('n'), ldreq('lda', 'n')],
+   minwork={'lwork': lambda p: zmax(1, 3 * p['n'] - 1)})
+LR('heev', 'z', 'jobz uplo n A lda W work lwork rwork info',
+   {'A': ('rw', ge('n', 'n', 'lda')), 'W': _W, 'work': WORK,
+    'rwork': ('w', lambda p: zmax(1, 3 * p['n'] - 2), 'R')},
+   [_jobz, _uplo, nonneg('n'), ldreq('lda', 'n')],
+   minwork={'lwork': lambda p: zmax(1, 2 * p['n'] - 1)})
+
+# expert drivers: Z (LDZ, max(1,M)); M = N (RANGE='A'), IU-IL+1 ('I'),
+# unknown in advance but <= N ('V')
+_mmax = lambda p: zmax(1, z3.If(isch(p, 'range', 'I'),
+                                p['iu'] - p['il'] + 1, p['n']))
+_Zx = ('w', lambda p: z3.If(isch(p, 'jobz', 'V'),
+                            ge('n', _mmax, 'ldz')(p), 0))
+_ilreq = req("range = 'I' => 1 <= il <= max(1,n)", lambda p: z3.Implies(
+    isch(p, 'range', 'I'), z3.And(p['il'] >= 1,
+                                  p['il'] <= zmax(1, p['n']))))
+_iureq = req("range = 'I' => min(n,il) <= iu <= n", lambda p: z3.Implies(
+    isch(p, 'range', 'I'), z3.And(p['iu'] >= zmin(p['n'], p['il']),
+                                  p['iu'] <= p['n'])))
+_ldzreq = req("ldz >= 1 and (jobz = 'V' => ldz >= n)", lambda p: z3.And(
+    p['ldz'] >= 1, z3.Implies(isch(p, 'jobz', 'V'), p['ldz'] >= p['n'])))
+_xreq = [_jobz, flag('range', 'AVI'), _uplo, nonneg('n'),
+         ldreq('lda', 'n'), _ilreq, _iureq, _ldzreq]
+_ifail = ('w', lambda p: z3.If(isch(p, 'jobz', 'V'), zmax(0, p['n']), 0),
+          'I')
+LR('syevx', 'd', 'jobz range uplo n A lda vl vu il iu abstol m_out W Z '
+   'ldz work lwork iwork ifail info',
+   {'A': ('rw', ge('n', 'n', 'lda')), 'W': _W, 'Z': _Zx, 'work': WORK,
+    'iwork': ('w', cnt('n', mul=5), 'I'), 'ifail': _ifail},
+   _xreq,
+   minwork={'lwork': lambda p: z3.If(p['n'] <= 1, 1, 8 * p['n'])})
+LR('heevx', 'z', 'jobz range uplo n A lda vl vu il iu abstol m_out W Z '
+   'ldz work lwork rwork iwork ifail info',
+   {'A': ('rw', ge('n', 'n', 'lda')), 'W': _W, 'Z': _Zx, 'work': WORK,
+    'rwork': ('w', cnt('n', mul=7), 'R'),
+    'iwork': ('w', cnt('n', mul=5), 'I'), 'ifail': _ifail},
+   _xreq,
+   minwork={'lwork': lambda p: z3.If(p['n'] <= 1, 1, 2 * p['n'])})
+
+_jv = lambda p: isch(p, 'jobz', 'V')
+_liw_d = lambda p: z3.If(z3.Or(p['n'] <= 1, z3.Not(_jv(p))), 1,
+                         3 + 5 * p['n'])
+LR('syevd', 'd', 'jobz uplo n A lda W work lwork iwork liwork info',
+   {'A': ('rw', ge('n', 'n', 'lda')), 'W': _W, 'work': WORK,
+    'iwork': IWORKL},
+   [_jobz, _uplo, nonneg('n'), ldreq('lda', 'n')],
+   minwork={'lwork': lambda p: z3.If(p['n'] <= 1, 1, z3.If(
+       _jv(p), 1 + 6 * p['n'] + 2 * p['n'] * p['n'], 2 * p['n'] + 1)),
+       'liwork': _liw_d})
+LR('heevd', 'z', 'jobz uplo n A lda W work lwork rwork lrwork iwork '
+   'liwork info',
+   {'A': ('rw', ge('n', 'n', 'lda')), 'W': _W, 'work': WORK,
+    'rwork': RWORKL, 'iwork': IWORKL},
+   [_jobz, _uplo, nonneg('n'), ldreq('lda', 'n')],
+   minwork={'lwork': lambda p: z3.If(p['n'] <= 1, 1, z3.If(
+       _jv(p), 2 * p['n'] + p['n'] * p['n'], p['n'] + 1)),
+       'lrwork': lambda p: z3.If(p['n'] <= 1, 1, z3.If(
+           _jv(p), 1 + 5 * p['n'] + 2 * p['n'] * p['n'], p['n'])),
+       'liwork': _liw_d})
+
+# ISUPPZ dimension (2*max(1,M))
+_isuppz = ('w', lambda p: 2 * _mmax(p), 'I')
+LR('syevr', 'd', 'jobz range uplo n A lda vl vu il iu abstol m_out W Z '
+   'ldz isuppz work lwork iwork liwork info',
+   {'A': ('rw', ge('n', 'n', 'lda')), 'W': _W, 'Z': _Zx,
+    'isuppz': _isuppz, 'work': WORK, 'iwork': IWORKL},
+   _xreq,
+   minwork={'lwork': lambda p: zmax(1, 26 * p['n']),
+            'liwork': lambda p: zmax(1, 10 * p['n'])})
+LR('heevr', 'z', 'jobz range uplo n A lda vl vu il iu abstol m_out W Z '
+   'ldz isuppz work lwork rwork lrwork iwork liwork info',
+   {'A': ('rw', ge('n', 'n', 'lda')), 'W': _W, 'Z': _Zx,
+    'isuppz': _isuppz, 'work': WORK, 'rwork': RWORKL, 'iwork': IWORKL},
+   _xreq,
+   minwork={'lwork': lambda p: zmax(1, 2 * p['n']),
+            'lrwork': lambda p: zmax(1, 24 * p['n']),
+            'liwork': lambda p: zmax(1, 10 * p['n'])})
+
+# generalized symmetric-definite
+_itype = req('1 <= itype <= 3', lambda p: z3.And(p['itype'] >= 1,
+                                                 p['itype'] <= 3))
+LR('sygv', 'd', 'itype jobz uplo n A lda B ldb W work lwork info',
+   {'A': ('rw', ge('n', 'n', 'lda')), 'B': ('rw', ge('n', 'n', 'ldb')),
+    'W': _W, 'work': WORK},
+   [_itype, _jobz, _uplo, nonneg('n'), ldreq('lda', 'n'),
+    ldreq('ldb', 'n')],
+   minwork={'lwork': lambda p: zmax(1, 3 * p['n'] - 1)})
+LR('hegv', 'z', 'itype jobz uplo n A lda B ldb W work lwork rwork info',
+   {'A': ('rw', ge('n', 'n', 'lda')), 'B': ('rw', ge('n', 'n', 'ldb')),
+    'W': _W, 'work': WORK,
+    'rwork': ('w', lambda p: zmax(1, 3 * p['n'] - 2), 'R')},
+   [_itype, _jobz, _uplo, nonneg('n'), ldreq('lda', 'n'),
+    ldreq('ldb', 'n')],
+   minwork={'lwork': lambda p: zmax(1, 2 * p['n'] - 1)})
+
+# ------------------------------------------------- SVD
+_S = ('w', lambda p: zmax(0, mn(p)), 'R')
+_Usvd = ('w', lambda p: z3.If(
+    isch(p, 'jobu', 'A'), ge('m', 'm', 'ldu')(p), z3.If(
+        isch(p, 'jobu', 'S'), ge('m', mn, 'ldu')(p), 0)))
+_Vtsvd = ('w', lambda p: z3.If(
+    isch(p, 'jobvt', 'A'), ge('n', 'n', 'ldvt')(p), z3.If(
+        isch(p, 'jobvt', 'S'), ge(mn, 'n', 'ldvt')(p), 0)))
+_svdreq = [
+    flag('jobu', 'ASON'), flag('jobvt', 'ASON'),
+    req("not (jobu = 'O' and jobvt = 'O')", lambda p: z3.Not(z3.And(
+        isch(p, 'jobu', 'O'), isch(p, 'jobvt', 'O')))),
+    nonneg('m'), nonneg('n'), ldreq('lda', 'm'),
+    req("ldu >= 1 and (jobu in 'SA' => ldu >= m)", lambda p: z3.And(
+        p['ldu'] >= 1, z3.Implies(is_(p, 'jobu', 'S', 'A'),
+                                  p['ldu'] >= p['m']))),
+    req("ldvt >= 1, jobvt = 'A' => ldvt >= n, jobvt = 'S' => ldvt >= "
+        "min(m,n)", lambda p: z3.And(
+            p['ldvt'] >= 1,
+            z3.Implies(isch(p, 'jobvt', 'A'), p['ldvt'] >= p['n']),
+            z3.Implies(isch(p, 'jobvt', 'S'), p['ldvt'] >= mn(p))))]
+LR('gesvd', 'd', 'jobu jobvt m n A lda S U ldu VT ldvt work lwork info',
+   {'A': ('rw', ge('m', 'n', 'lda')), 'S': _S, 'U': _Usvd, 'VT': _Vtsvd,
+    'work': WORK},
+   _svdreq,
+   minwork={'lwork': lambda p: zmax(1, zmax(3 * mn(p) + mx(p),
+                                            5 * mn(p)))})
+LR('gesvd', 'z', 'jobu jobvt m n A lda S U ldu VT ldvt work lwork rwork '
+   'info',
+   {'A': ('rw', ge('m', 'n', 'lda')), 'S': _S, 'U': _Usvd, 'VT': _Vtsvd,
+    'work': WORK, 'rwork': ('w', lambda p: zmax(0, 5 * mn(p)), 'R')},
+   _svdreq,
+   minwork={'lwork': lambda p: zmax(1, 2 * mn(p) + mx(p))})
+
+# xGESDD.  U (LDU,UCOL): UCOL = M if JOBZ='A' or (JOBZ='O' and M < N),
+# min(M,N) if JOBZ='S'; VT (LDVT,N): N rows if JOBZ='A' or (JOBZ='O' and
+# M >= N), min(M,N) rows if JOBZ='S'
+_jz = lambda p, c: isch(p, 'jobz', c)
+_uA = lambda p: z3.Or(_jz(p, 'A'), z3.And(_jz(p, 'O'), p['m'] < p['n']))
+_vA = lambda p: z3.Or(_jz(p, 'A'), z3.And(_jz(p, 'O'), p['m'] >= p['n']))
+_Usdd = ('w', lambda p: z3.If(_uA(p), ge('m', 'm', 'ldu')(p), z3.If(
+    _jz(p, 'S'), ge('m', mn, 'ldu')(p), 0)))
+_Vtsdd = ('w', lambda p: z3.If(_vA(p), ge('n', 'n', 'ldvt')(p), z3.If(
+    _jz(p, 'S'), ge(mn, 'n', 'ldvt')(p), 0)))
+_sddreq = [
+    flag('jobz', 'ASON'), nonneg('m'), nonneg('n'), ldreq('lda', 'm'),
+    req("ldu >= 1 and (jobz in 'SA' or (jobz = 'O' and m < n) => ldu >= m)",
+        lambda p: z3.And(p['ldu'] >= 1, z3.Implies(
+            z3.Or(_jz(p, 'S'), _uA(p)), p['ldu'] >= p['m']))),
+    req("ldvt >= 1, (jobz = 'A' or (jobz = 'O' and m >= n)) => ldvt >= n, "
+        "jobz = 'S' => ldvt >= min(m,n)", lambda p: z3.And(
+            p['ldvt'] >= 1, z3.Implies(_vA(p), p['ldvt'] >= p['n']),
+            z3.Implies(_jz(p, 'S'), p['ldvt'] >= mn(p))))]
+_iw_sdd = ('w', lambda p: zmax(0, 8 * mn(p)), 'I')
+
+
+def _lw_dgesdd(p):      # LAPACK >= 3.7 documentation
+    a, b = mn(p), mx(p)
+    return zmax(1, z3.If(
+        _jz(p, 'N'), 3 * a + zmax(b, 7 * a), z3.If(
+            _jz(p, 'O'), 3 * a + zmax(b, 5 * a * a + 4 * a), z3.If(
+                _jz(p, 'S'), 4 * a * a + 7 * a,
+                4 * a * a + 6 * a + b))))
+
+
+def _lw_zgesdd(p):
+    a, b = mn(p), mx(p)
+    return zmax(1, z3.If(
+        _jz(p, 'N'), 2 * a + b, z3.If(
+            _jz(p, 'O'), 2 * a * a + 2 * a + b, z3.If(
+                _jz(p, 'S'), a * a + 3 * a, a * a + 2 * a + b))))
+
+
+def _lrw_zgesdd(p):
+    # JOBZ='N': 5*mn (LAPACK <= 3.6 needs 7*mn); else if mx >> mn:
+    # 5*mn*mn + 5*mn; else max(5*mn*mn + 5*mn, 2*mx*mn + 2*mn*mn + mn).
+    # "mx >> mn" is the reference code's test mx >= MNTHR1 = INT(mn*17/9)
+    a, b = mn(p), mx(p)
+    big = 9 * b >= 17 * a - 8          # b >= floor(17*a/9)
+    return zmax(1, z3.If(_jz(p, 'N'), 7 * a, z3.If(
+        big, 5 * a * a + 5 * a,
+        zmax(5 * a * a + 5 * a, 2 * b * a + 2 * a * a + a))))
+
+
+LR('gesdd', 'd', 'jobz m n A lda S U ldu VT ldvt work lwork iwork info',
+   {'A': ('rw', ge('m', 'n', 'lda')), 'S': _S, 'U': _Usdd, 'VT': _Vtsdd,
+    'work': WORK, 'iwork': _iw_sdd},
+   _sddreq, minwork={'lwork': _lw_dgesdd})
+LR('gesdd', 'z', 'jobz m n A lda S U ldu VT ldvt work lwork rwork iwork '
+   'info',
+   {'A': ('rw', ge('m', 'n', 'lda')), 'S': _S, 'U': _Usdd, 'VT': _Vtsdd,
+    'work': WORK, 'rwork': ('w', _lrw_zgesdd, 'R'), 'iwork': _iw_sdd},
+   _sddreq, minwork={'lwork': _lw_zgesdd})
+
+# ------------------------------------------------- Schur factorizations
+_bwork = ('w', lambda p: z3.If(isch(p, 'sort', 'N'), 0, zmax(0, p['n'])),
+          'L')
+
+
+def _vs(job, ld):
+    return ('w', lambda p: z3.If(isch(p, job, 'V'), ge('n', 'n', ld)(p), 0))
+
+
+def _ldvs(job, ld):
+    return req("%s >= 1 and (%s = 'V' => %s >= n)" % (ld, job, ld),
+               lambda p: z3.And(p[ld] >= 1, z3.Implies(
+                   isch(p, job, 'V'), p[ld] >= p['n'])))
+
+
+LR('gees', 'd', 'jobvs sort select n A lda sdim wr wi VS ldvs work lwork '
+   'bwork info',
+   {'A': ('rw', ge('n', 'n', 'lda')), 'wr': ('w', cnt('n')),
+    'wi': ('w', cnt('n')), 'VS': _vs('jobvs', 'ldvs'), 'work': WORK,
+    'bwork': _bwork},
+   [flag('jobvs', 'NV'), flag('sort', 'NS'), nonneg('n'),
+    ldreq('lda', 'n'), _ldvs('jobvs', 'ldvs')],
+   minwork={'lwork': lambda p: zmax(1, 3 * p['n'])}, funcs=('select',))
+LR('gees', 'z', 'jobvs sort select n A lda sdim w VS ldvs work lwork rwork '
+   'bwork info',
+   {'A': ('rw', ge('n', 'n', 'lda')), 'w': ('w', cnt('n')),
+    'VS': _vs('jobvs', 'ldvs'), 'work': WORK,
+    'rwork': ('w', cnt('n'), 'R'), 'bwork': _bwork},
+   [flag('jobvs', 'NV'), flag('sort', 'NS'), nonneg('n'),
+    ldreq('lda', 'n'), _ldvs('jobvs', 'ldvs')],
+   minwork={'lwork': lambda p: zmax(1, 2 * p['n'])}, funcs=('select',))
+
+_ggreq = [flag('jobvsl', 'NV'), flag('jobvsr', 'NV'), flag('sort', 'NS'),
+          nonneg('n'), ldreq('lda', 'n'), ldreq('ldb', 'n'),
+          _ldvs('jobvsl', 'ldvsl'), _ldvs('jobvsr', 'ldvsr')]
+# DGGES: LWORK >= 1 if N = 0, else >= max(8*N, 6*N+16)
+LR('gges', 'd', 'jobvsl jobvsr sort selctg n A lda B ldb sdim alphar '
+   'alphai beta VSL ldvsl VSR ldvsr work lwork bwork info',
+   {'A': ('rw', ge('n', 'n', 'lda')), 'B': ('rw', ge('n', 'n', 'ldb')),
+    'alphar': ('w', cnt('n')), 'alphai': ('w', cnt('n')),
+    'beta': ('w', cnt('n')), 'VSL': _vs('jobvsl', 'ldvsl'),
+    'VSR': _vs('jobvsr', 'ldvsr'), 'work': WORK, 'bwork': _bwork},
+   _ggreq,
+   minwork={'lwork': lambda p: z3.If(p['n'] == 0, 1, zmax(
+       8 * p['n'], 6 * p['n'] + 16))}, funcs=('selctg',))
+LR('gges', 'z', 'jobvsl jobvsr sort selctg n A lda B ldb sdim alpha beta '
+   'VSL ldvsl VSR ldvsr work lwork rwork bwork info',
+   {'A': ('rw', ge('n', 'n', 'lda')), 'B': ('rw', ge('n', 'n', 'ldb')),
+    'alpha': ('w', cnt('n')), 'beta': ('w', cnt('n')),
+    'VSL': _vs('jobvsl', 'ldvsl'), 'VSR': _vs('jobvsr', 'ldvsr'),
+    'work': WORK, 'rwork': ('w', cnt('n', mul=8), 'R'), 'bwork': _bwork},
+   _ggreq,
+   minwork={'lwork': lambda p: zmax(1, 2 * p['n'])}, funcs=('selctg',))
 
 
 # ------------------------------------------------------------------ handler
